@@ -129,6 +129,12 @@ class _CGMYLevyMeasure(LevyMeasure):
         return 0
 
     def integrate(self, a: float, b: float) -> float:
+        if a < 0 < b:
+            # interval straddling zero, finite or infinite ends: infinite activity for y >= 0, else both sides of zero
+            if self.parameters.y >= 0:
+                return np.inf
+            return self.integrate(a, 0.0) + self.integrate(0.0, b)
+
         if b == np.inf:
             if a == np.inf:
                 return 0.0
@@ -221,6 +227,9 @@ class _CGMYLevyMeasure(LevyMeasure):
         uh = u * h
         if alpha == 0:
             return scipy.special.exp1(uh)
+        if h == 0 and alpha < 0:
+            # finite activity: the whole half-line has the finite mass Gamma(-alpha) * u^alpha
+            return scipy.special.gamma(-alpha) * u**alpha
 
         expmuh = np.exp(-uh)
         if alpha >= 1:
